@@ -56,7 +56,7 @@ Proof. exact chain_step_l4. Qed.
 Print Assumptions C09_demux_tagged.
 
 (* full round-trip statement, not proved in general (the correspondence run checks it on
-   random well-formed frames; KNOWN FINDING D31: a tag with VLAN id 0 is not re-encoded) *)
+   random well-formed frames) *)
 (* ---- the round trip ----
    Packets as recipes (Proofs/PktRtP.v): an Ethernet frame with or without an 802.1Q tag, carrying
    ARP, IPv4 (with options; ICMP / UDP / opaque payload selected by the protocol number), IPv6
@@ -64,7 +64,8 @@ Print Assumptions C09_demux_tagged.
    ICMPv6 / UDP / opaque) or an opaque payload, selected by the ethertype behind the tag.
    [eth_ok]: every field within its width, addresses at their sizes, IHL >= 5 and the options
    exactly IHL*4-20 bytes, extension headers exactly 8*(len+1) bytes with well-formed options,
-   selectors consistent with the parts present, no 802.1Q tag with VLAN id 0 (finding D31). *)
+   selectors consistent with the parts present; a tag is present exactly when its TCI is not 0
+   (priority tags - VLAN id 0 with a priority - included, since fix D31). *)
 Theorem C09_roundtrip : forall e, eth_ok e = true -> dec_eth (wire (eth_tree e)) = Ok (eth_tree e).
 Proof. exact dec_eth_rt. Qed.
 Print Assumptions C09_roundtrip.
@@ -101,8 +102,15 @@ Theorem C09_roundtrip_example :
   match dec_eth frame with Ok t => wire t = frame | _ => False end.
 Proof. exact eth_roundtrip_examples. Qed.
 
-(* D31 as a refutation of the full statement: a priority tag (VLAN id 0) is lost *)
-Theorem C09_roundtrip_refuted :
-  let frame := zeros 12 ++ be16 33024 ++ be16 (pack_tci 5 0 0) ++ be16 35020 ++ [x01; x02] in
+(* a tag whose TCI is 0x0000 is the one frame shape that decodes but is not re-encoded: for
+   this library the value "no VLAN, priority 0, no DEI" is the untagged frame *)
+Theorem C09_zero_tag_not_reencoded :
+  let frame := zeros 12 ++ be16 33024 ++ be16 0 ++ be16 35020 ++ [x01; x02] in
   exists t, dec_eth frame = Ok t /\ wire t <> frame.
-Proof. exact priority_tag_lost. Qed.
+Proof. exact zero_tag_lost. Qed.
+
+(* a priority tag (VLAN id 0, priority 5) round-trips (it did not before fix D31) *)
+Theorem C09_priority_tag_kept :
+  let frame := zeros 12 ++ be16 33024 ++ be16 (pack_tci 5 0 0) ++ be16 35020 ++ [x01; x02] in
+  match dec_eth frame with Ok t => wire t = frame | _ => False end.
+Proof. exact priority_tag_kept. Qed.
